@@ -8,18 +8,18 @@ open Heimdall.CacheKey Heimdall.CacheExec
 /-- a request to the remote authorizer `m1`: rendered values `{a: "bc", ab: "c", z: ""}`, payload `{}`, two response
 headers to forward, `cache_ttl: 10m`; the digests of endpoint and subject are 32 bytes each -/
 def envA : Env where
-  str s := if s = "recv.id" then [109, 49] else if s = "arg2" then [123, 125] else
-    if s = "recv.e.Hash()" then List.replicate 32 7 else if s = "arg0.Hash()" then List.replicate 32 9 else []
-  num s := if s = "recv.ttl" then 600000000000 else 0
-  lst s := if s = "recv.headersForUpstream" then [[88, 45, 65], [88, 45, 66]] else []
-  map s := if s = "arg1" then [([97], [98, 99]), ([97, 98], [99]), ([122], [])] else []
+  str s := if s = "id" then [109, 49] else if s = "payload" then [123, 125] else
+    if s = "endpoint" then List.replicate 32 7 else if s = "subject" then List.replicate 32 9 else []
+  num s := if s = "ttl" then 600000000000 else 0
+  lst s := if s = "headersForUpstream" then [[88, 45, 65], [88, 45, 66]] else []
+  map s := if s = "values" then [([97], [98, 99]), ([97, 98], [99]), ([122], [])] else []
 
 /-- the same request, the runtime iterating the values in the opposite order -/
 def envA' : Env := { envA with map := fun s => (envA.map s).reverse }
 
 /-- the same request with the boundary between a key and its value shifted: `{a: "b", abc: "", z: ""}` -/
 def envB : Env :=
-  { envA with map := fun s => if s = "arg1" then [([97], [98]), ([97, 98, 99], []), ([122], [])] else [] }
+  { envA with map := fun s => if s = "values" then [([97], [98]), ([97, 98, 99], []), ([122], [])] else [] }
 
 /-- `Endpoint.Hash` before the repair: url, method, headers in map order, optional strategy digest -/
 def legacyEndpoint : List Field :=
